@@ -46,6 +46,7 @@ class ListingOrder:
         self.permuted = 0          # listings with >= 2 entries that were handed out
         self.max_entries = 0
         self.only_under: str | None = None
+        self.policy = None         # optional callable(directory, sorted_names) -> list: replaces the k-based policy
 
     def applies(self, directory: str) -> bool:
         if not self.active:
@@ -65,6 +66,8 @@ class ListingOrder:
         if n < 2:
             return names
         self.permuted += 1
+        if self.policy is not None:
+            return list(self.policy(directory, names))
         if self.k == 0:
             return names
         if self.k == 1:
@@ -162,12 +165,13 @@ def uninstall() -> None:
 
 
 @contextmanager
-def shuffled(k: int, seed: int = 0, only_under: str | None = None):
-    """Listing order number ``k`` is in force inside the block (only below ``only_under`` when given)."""
+def shuffled(k: int, seed: int = 0, only_under: str | None = None, policy=None):  # noqa: ANN001
+    """Listing order number ``k`` (or the custom ``policy(directory, sorted_names)``) is in force inside the block
+    (only below ``only_under`` when given)."""
     install()
-    prev = (ORDER.active, ORDER.k, ORDER.seed, ORDER.only_under)
-    ORDER.active, ORDER.k, ORDER.seed, ORDER.only_under = True, k, seed, only_under
+    prev = (ORDER.active, ORDER.k, ORDER.seed, ORDER.only_under, ORDER.policy)
+    ORDER.active, ORDER.k, ORDER.seed, ORDER.only_under, ORDER.policy = True, k, seed, only_under, policy
     try:
         yield ORDER
     finally:
-        ORDER.active, ORDER.k, ORDER.seed, ORDER.only_under = prev
+        ORDER.active, ORDER.k, ORDER.seed, ORDER.only_under, ORDER.policy = prev
